@@ -30,6 +30,7 @@ type vopUnit struct {
 	Graph  bool     `json:"graph"`
 	Parent string   `json:"parent"`
 	OT     string   `json:"ot"`
+	GK     string   `json:"gk"` // graph units: graph | chain | workflow (what the nested graph is built with)
 }
 
 type vopStmt struct {
@@ -55,7 +56,9 @@ type vopT3 struct{ ID string }
 type vopRec struct {
 	mu    sync.Mutex
 	lines []string
-	fired map[string][]string // call tag + "/" + run-info name -> handler ids
+	fired map[string][]string // call tag + "/" + run-info name -> handler ids (start, end and error events)
+	gots  map[string][]string // call tag + "/" + unit -> option payload ids the node body received
+	ran   []string            // call tag + "/" + unit, in execution order
 }
 
 func (r *vopRec) log(ev string, kv map[string]any) {
@@ -81,6 +84,27 @@ type vopRun struct {
 	ncalls  int
 	mu      sync.Mutex
 	inside  int
+	par     map[string]*vopBarrier // tree "par": per call, the parallel node bodies overlap (all started before any returns)
+}
+
+type vopBarrier struct {
+	mu   sync.Mutex
+	n    int
+	need int
+	ch   chan struct{}
+}
+
+func (b *vopBarrier) wait() {
+	b.mu.Lock()
+	b.n++
+	if b.n == b.need {
+		close(b.ch)
+	}
+	b.mu.Unlock()
+	select {
+	case <-b.ch:
+	case <-time.After(200 * time.Millisecond):
+	}
 }
 
 // both calls of a case are in flight at the same time: the first node body of each waits (bounded) for the other call
@@ -110,20 +134,52 @@ func (r *vopRun) record(u *vopUnit, tag string, got []string, first bool) {
 	if first {
 		r.rendezvous()
 	}
-	r.rec.mu.Lock()
-	cbs := append([]string{}, r.rec.fired[tag+"/N_"+u.U]...)
-	r.rec.mu.Unlock()
-	sort.Strings(cbs)
-	uniq := cbs[:0]
-	for i, x := range cbs {
-		if i == 0 || x != cbs[i-1] {
-			uniq = append(uniq, x)
-		}
-	}
 	if got == nil {
 		got = []string{}
 	}
-	r.rec.log("node", map[string]any{"call": vopCallNo(tag), "u": u.U, "got": got, "cbs": append([]string{}, uniq...)})
+	r.rec.mu.Lock()
+	r.rec.gots[tag+"/"+u.U] = got
+	r.rec.ran = append(r.rec.ran, tag+"/"+u.U)
+	r.rec.mu.Unlock()
+	if r.c.Tree == "par" {
+		r.mu.Lock()
+		b := r.par[tag]
+		r.mu.Unlock()
+		if b != nil {
+			b.wait()
+		}
+	}
+}
+
+// after a call returned: one node line per leaf that ran in it, with the handlers that fired for it (start, end or error)
+func (r *vopRun) emitNodes(tag string) {
+	r.rec.mu.Lock()
+	var units []string
+	for _, k := range r.rec.ran {
+		if strings.HasPrefix(k, tag+"/") {
+			units = append(units, strings.TrimPrefix(k, tag+"/"))
+		}
+	}
+	type nl struct {
+		u        string
+		got, cbs []string
+	}
+	var out []nl
+	for _, u := range units {
+		cbs := append([]string{}, r.rec.fired[tag+"/N_"+u]...)
+		sort.Strings(cbs)
+		uniq := []string{}
+		for i, x := range cbs {
+			if i == 0 || x != cbs[i-1] {
+				uniq = append(uniq, x)
+			}
+		}
+		out = append(out, nl{u, r.rec.gots[tag+"/"+u], uniq})
+	}
+	r.rec.mu.Unlock()
+	for _, n := range out {
+		r.rec.log("node", map[string]any{"call": vopCallNo(tag), "u": n.u, "got": n.got, "cbs": n.cbs})
+	}
 }
 
 func (r *vopRun) leaf(u *vopUnit, first bool) *Lambda {
@@ -162,18 +218,63 @@ func (r *vopRun) leaf(u *vopUnit, first bool) *Lambda {
 	})
 }
 
-func (r *vopRun) build(gid string, top bool) (*Graph[string, string], error) {
+// children of graph unit gid, in chain order
+func (r *vopRun) kids(gid string) []*vopUnit {
+	var out []*vopUnit
+	for i := range r.c.Units {
+		if r.c.Units[i].Parent == gid {
+			out = append(out, &r.c.Units[i])
+		}
+	}
+	return out
+}
+
+// builds graph unit gid as a plain Graph, a Chain or a Workflow (unit.GK); every level is a chain of its children
+func (r *vopRun) build(gid string, top bool, gk string) (AnyGraph, error) {
+	first := top
+	switch gk {
+	case "chain":
+		ch := NewChain[string, string]()
+		for _, u := range r.kids(gid) {
+			key := u.Path[len(u.Path)-1]
+			if u.Graph {
+				sub, err := r.build(u.U, false, u.GK)
+				if err != nil {
+					return nil, err
+				}
+				ch.AppendGraph(sub, WithNodeKey(key), WithNodeName("N_"+u.U))
+			} else {
+				ch.AppendLambda(r.leaf(u, first), WithNodeKey(key), WithNodeName("N_"+u.U))
+			}
+			first = false
+		}
+		return ch, nil
+	case "workflow":
+		wf := NewWorkflow[string, string]()
+		prev := START
+		for _, u := range r.kids(gid) {
+			key := u.Path[len(u.Path)-1]
+			if u.Graph {
+				sub, err := r.build(u.U, false, u.GK)
+				if err != nil {
+					return nil, err
+				}
+				wf.AddGraphNode(key, sub, WithNodeName("N_"+u.U)).AddInput(prev)
+			} else {
+				wf.AddLambdaNode(key, r.leaf(u, first), WithNodeName("N_"+u.U)).AddInput(prev)
+			}
+			first = false
+			prev = key
+		}
+		wf.End().AddInput(prev)
+		return wf, nil
+	}
 	g := NewGraph[string, string]()
 	prev := START
-	first := top
-	for i := range r.c.Units {
-		u := &r.c.Units[i]
-		if u.Parent != gid {
-			continue
-		}
+	for _, u := range r.kids(gid) {
 		key := u.Path[len(u.Path)-1]
 		if u.Graph {
-			sub, err := r.build(u.U, false)
+			sub, err := r.build(u.U, false, u.GK)
 			if err != nil {
 				return nil, err
 			}
@@ -197,9 +298,38 @@ func (r *vopRun) build(gid string, top bool) (*Graph[string, string], error) {
 	return g, nil
 }
 
+// tree "par": the leaves of the top graph run in parallel in one super step (fan-out from START, fan-in to END by output key)
+func (r *vopRun) buildPar() (func(ctx context.Context, in string, opts ...Option) error, int, error) {
+	g := NewGraph[string, map[string]any]()
+	n := 0
+	for _, u := range r.kids("top") {
+		key := u.Path[len(u.Path)-1]
+		if err := g.AddLambdaNode(key, r.leaf(u, false), WithNodeName("N_"+u.U), WithOutputKey(key)); err != nil {
+			return nil, 0, err
+		}
+		if err := g.AddEdge(START, key); err != nil {
+			return nil, 0, err
+		}
+		if err := g.AddEdge(key, END); err != nil {
+			return nil, 0, err
+		}
+		n++
+	}
+	run, err := g.Compile(context.Background(), WithGraphName("N_top"))
+	if err != nil {
+		return nil, 0, err
+	}
+	return func(ctx context.Context, in string, opts ...Option) error {
+		_, err := run.Invoke(ctx, in, opts...)
+		return err
+	}, n, nil
+}
+
 func (r *vopRun) handler(id string) callbacks.Handler {
-	return callbacks.NewHandlerBuilder().OnStartFn(func(ctx context.Context, info *callbacks.RunInfo, input callbacks.CallbackInput) context.Context {
-		tag, _ := input.(string)
+	// the call a unit execution belongs to travels in the value (every node passes its input on): start events carry it as payload;
+	// end / error events are attributed through the context the start callback returned
+	type tagKey struct{}
+	note := func(tag string, info *callbacks.RunInfo) {
 		name := "<nil>"
 		if info != nil {
 			name = info.Name
@@ -207,23 +337,60 @@ func (r *vopRun) handler(id string) callbacks.Handler {
 		r.rec.mu.Lock()
 		r.rec.fired[tag+"/"+name] = append(r.rec.fired[tag+"/"+name], id)
 		r.rec.mu.Unlock()
-		return ctx
-	}).Build()
+	}
+	return callbacks.NewHandlerBuilder().
+		OnStartFn(func(ctx context.Context, info *callbacks.RunInfo, input callbacks.CallbackInput) context.Context {
+			tag, _ := input.(string)
+			note(tag, info)
+			return context.WithValue(ctx, tagKey{}, tag)
+		}).
+		OnEndFn(func(ctx context.Context, info *callbacks.RunInfo, output callbacks.CallbackOutput) context.Context {
+			tag, _ := output.(string)
+			if m, ok := output.(map[string]any); ok {
+				for _, v := range m {
+					if s, ok := v.(string); ok {
+						tag = s
+					}
+				}
+			}
+			note(tag, info)
+			return ctx
+		}).
+		OnErrorFn(func(ctx context.Context, info *callbacks.RunInfo, err error) context.Context {
+			tag, _ := ctx.Value(tagKey{}).(string)
+			note(tag, info)
+			return ctx
+		}).Build()
 }
 
 func (r *vopRun) runCase() {
 	c := r.c
 	r.rec.log("case", map[string]any{"id": c.ID, "tree": c.Tree, "units": c.Units, "prog": c.Prog, "calls": c.Calls})
 	defer r.rec.log("done", map[string]any{})
-	g, err := r.build("top", true)
-	if err != nil {
-		r.rec.log("note", map[string]any{"msg": "BUILD-FAILED: " + err.Error()})
-		return
-	}
-	run, err := g.Compile(context.Background(), WithGraphName("N_top"))
-	if err != nil {
-		r.rec.log("note", map[string]any{"msg": "BUILD-FAILED: compile: " + err.Error()})
-		return
+	var invoke func(ctx context.Context, in string, opts ...Option) error
+	npar := 0
+	if c.Tree == "par" {
+		f, n, err := r.buildPar()
+		if err != nil {
+			r.rec.log("note", map[string]any{"msg": "BUILD-FAILED: " + err.Error()})
+			return
+		}
+		invoke, npar = f, n
+	} else {
+		ag, err := r.build("top", true, "graph")
+		if err != nil {
+			r.rec.log("note", map[string]any{"msg": "BUILD-FAILED: " + err.Error()})
+			return
+		}
+		run, err := ag.(*Graph[string, string]).Compile(context.Background(), WithGraphName("N_top"))
+		if err != nil {
+			r.rec.log("note", map[string]any{"msg": "BUILD-FAILED: compile: " + err.Error()})
+			return
+		}
+		invoke = func(ctx context.Context, in string, opts ...Option) error {
+			_, err := run.Invoke(ctx, in, opts...)
+			return err
+		}
 	}
 	// the option program, executed statement by statement on Option VALUES as user code would
 	vars := make([]Option, 0, len(c.Prog))
@@ -268,6 +435,12 @@ func (r *vopRun) runCase() {
 	}
 	r.ncalls = len(c.Calls)
 	r.arrived = make(chan struct{})
+	r.par = map[string]*vopBarrier{}
+	for k := range c.Calls {
+		if npar > 0 {
+			r.par[fmt.Sprintf("k%d", k+1)] = &vopBarrier{need: npar, ch: make(chan struct{})}
+		}
+	}
 	var wg sync.WaitGroup
 	for k := range c.Calls {
 		opts := make([]Option, 0, len(c.Calls[k]))
@@ -284,8 +457,9 @@ func (r *vopRun) runCase() {
 						err = fmt.Errorf("panic: %v", p)
 					}
 				}()
-				_, err = run.Invoke(context.Background(), fmt.Sprintf("k%d", k+1), opts...)
+				err = invoke(context.Background(), fmt.Sprintf("k%d", k+1), opts...)
 			}()
+			r.emitNodes(fmt.Sprintf("k%d", k+1))
 			r.rec.log("ret", map[string]any{"call": k + 1, "err": err != nil})
 		}(k, opts)
 	}
@@ -330,7 +504,7 @@ func TestVerifOpt(t *testing.T) {
 		go func() {
 			defer wg.Done()
 			for c := range next {
-				r := &vopRun{c: c, rec: &vopRec{fired: map[string][]string{}}}
+				r := &vopRun{c: c, rec: &vopRec{fired: map[string][]string{}, gots: map[string][]string{}}}
 				r.runCase()
 				wmu.Lock()
 				for _, l := range r.rec.lines {
